@@ -92,7 +92,7 @@ M=[
   'include/AIToolbox/POMDP/Algorithms/Witness.hpp',
   "auto v = vValues - projs[o][skip].values + projs[o][i].values;",
   "auto v = vValues + projs[o][i].values;"),
- ('PS1 not detected, by design: PERSEUS skips a belief only when strictly improved (differs on exact ties only; the value function is still consistent; check passes)',
+ ('PS1 PERSEUS skips a belief only when strictly improved (since the decisive whole-run comparison: diff PERSEUS model_differs, see tools/mutations_c04_fast.py)',
   'include/AIToolbox/POMDP/Algorithms/PERSEUS.hpp',
   "if ( currentValue >= oldValue ) continue;",
   "if ( currentValue > oldValue ) continue;"),
